@@ -7,7 +7,7 @@
 #ifndef N
 #define N 8
 #endif
-#if defined(PAIR) || defined(SINGLE)
+#if defined(PAIR) || defined(SINGLE) || defined(MIXED)
 #define STEPS 3      /* the fixed shapes hold at most two escapes and the closing quote */
 #else
 #define STEPS N
@@ -60,6 +60,11 @@ static int spec_decode(const char *in, uint64_t n, uint8_t *out, uint64_t *outn,
 void h_string(void)
 {
   char in_text[N + 1]; uint64_t in_len; __CPROVER_assume(in_len <= N);
+#ifdef MIXED    /* the shape "c\e": one arbitrary ordinary byte, then a two-character escape with an arbitrary escape letter */
+  __CPROVER_assume(in_len == 5);
+  in_text[0] = '"'; in_text[2] = '\\'; in_text[4] = '"';
+  __CPROVER_assume(in_text[1] != '"' && in_text[1] != '\\' && in_text[3] != 'u');   /* \u escapes: the SINGLE / PAIR shapes */
+#endif
 #ifdef SINGLE   /* the shape "\uHHHH" */
   __CPROVER_assume(in_len == 8);
   in_text[0] = '"'; in_text[1] = '\\'; in_text[2] = 'u'; in_text[7] = '"';
